@@ -152,13 +152,84 @@ def check(chk, repo, tier):
     ]
 
 
+LAZY_DRIVERS = {"map", "filter", "itertools.takewhile", "itertools.dropwhile",
+                "itertools.filterfalse", "itertools.starmap",
+                "itertools.accumulate", "itertools.groupby", "takewhile",
+                "dropwhile", "filterfalse", "starmap", "accumulate",
+                "groupby"}
+
+
+def calls_user_function(fexpr, params):
+    """does the callable handed to a lazy driver run a Vyxal function?
+    (safe_apply(...), or a direct call of one of the enclosing function's
+    value parameters)"""
+    for m in ast.walk(fexpr):
+        if isinstance(m, ast.Call):
+            d = (dotted(m.func) or "").split(".")[-1]
+            if d == "safe_apply":
+                return True
+            if isinstance(m.func, ast.Name) and m.func.id in params:
+                return True
+    if isinstance(fexpr, ast.Name) and fexpr.id in params:
+        return True
+    return False
+
+
 def stray_stopiteration(chk, repo):
-    """A lambda body that raises StopIteration does not abort the program:
-    the map/filter object that drives it ends quietly, the program finishes
-    normally, and the lambda's four pushes are never undone.  So outside
-    generators (where PEP 479 turns it into RuntimeError) no element code may
-    raise it: one-argument next() needs a handler, `raise StopIteration` is
-    out."""
+    """A lambda body that raises StopIteration does not abort the program
+    when the iterator that drives it is a builtin map / filter / itertools
+    object: that object ends quietly, the program finishes normally, and the
+    lambda's four pushes are never undone.  Inside a generator (function or
+    expression) PEP 479 turns it into RuntimeError.  Two rules: (1) Vyxal
+    functions are driven lazily only from generator frames; (2) if some driver
+    is unprotected, every place element code can raise StopIteration
+    (one-argument next(), .__next__(), raise) outside a generator is reported
+    too."""
+    unprotected = []
+    n_drv = 0
+    for modname in ("elements", "helpers", "LazyList"):
+        mod = repo.mod(modname)
+        for fn, qual in all_functions(mod.tree):
+            params = {a.arg for a in fn.args.args if a.arg not in ("ctx",
+                                                                   "self")}
+            for n in own_nodes(fn):
+                if not (isinstance(n, ast.Call) and (dotted(n.func) or "")
+                        in LAZY_DRIVERS and n.args):
+                    continue
+                short = (dotted(n.func) or "").split(".")[-1]
+                pos = 1 if short in ("accumulate", "groupby") else 0
+                cands = list(n.args[pos:pos + 1]) + [
+                    k.value for k in n.keywords if k.arg in ("key", "func")]
+                if not any(calls_user_function(c, params) for c in cands):
+                    continue
+                n_drv += 1
+                # protected: consumed inside a generator frame of this function
+                cur = getattr(n, "_parent", None)
+                prot = False
+                while cur is not None and cur is not fn:
+                    if isinstance(cur, ast.GeneratorExp):
+                        prot = True
+                    cur = getattr(cur, "_parent", None)
+                own = list(own_nodes(fn))
+                if any(isinstance(x, (ast.Yield, ast.YieldFrom)) for x in own):
+                    prot = True
+                cons = f"{modname}.{qual}:{ast.unparse(n)[:50]}"
+                if not prot:
+                    unprotected.append(cons)
+                chk.ob("C12.lambda-driver-protected", cons, prot,
+                       f"`{ast.unparse(n)[:60]}` runs a Vyxal function from a "
+                       f"builtin {dotted(n.func)} object: a StopIteration "
+                       "escaping from the function is taken for the end of "
+                       "the data - the program finishes normally with a "
+                       "truncated list and the lambda's bookkeeping entries "
+                       "still pushed", mod.rel, n.lineno,
+                       witness="⟨3|4⟩ λ_ ⟨⟩ ⟨1|2⟩ •;F  ends at (2,2,2,1)")
+    chk.unit("lazy drivers of Vyxal functions examined", n_drv)
+    if n_drv == 0:
+        chk.ob("C12.lambda-driver-protected", "elements/helpers/LazyList",
+               True, sample="no builtin map/filter/itertools object drives "
+                            "a Vyxal function; generator frames do")
+
     n_sites = 0
     for modname in ("elements", "helpers", "LazyList"):
         mod = repo.mod(modname)
@@ -200,15 +271,23 @@ def stray_stopiteration(chk, repo):
                         break
                     child = cur
                     cur = getattr(cur, "_parent", None)
-                chk.ob("C12.no-stray-stopiteration",
-                       f"{modname}.{qual}:{bad}", guarded,
-                       f"`{bad}` can raise StopIteration out of {qual}: "
-                       "inside a filter/map lambda the driving iterator "
-                       "takes it for the end of the list, the program "
-                       "finishes normally and the lambda's bookkeeping "
-                       "entries stay pushed", mod.rel, n.lineno,
-                       witness=STOP_WITNESS.get(f"{modname}.{qual}"),
-                       sample={"site": f"{qual}:{bad}"})
+                cons = f"{modname}.{qual}:{bad}"
+                if guarded or unprotected:
+                    chk.ob("C12.no-stray-stopiteration", cons, guarded,
+                           f"`{bad}` can raise StopIteration out of {qual} "
+                           f"while {unprotected[0] if unprotected else ''} "
+                           "would take it for the end of its data: the "
+                           "program finishes normally and the lambda's "
+                           "bookkeeping entries stay pushed", mod.rel,
+                           n.lineno,
+                           witness=STOP_WITNESS.get(f"{modname}.{qual}"),
+                           sample={"site": f"{qual}:{bad}"})
+                else:
+                    chk.info("C12.no-stray-stopiteration", cons,
+                             "can raise StopIteration, but every lazy driver "
+                             "of Vyxal functions is a generator frame: it "
+                             "surfaces as RuntimeError (the program does not "
+                             "finish normally)")
     chk.unit("next()/raise StopIteration sites outside generators", n_sites)
     chk.floor("next()/raise StopIteration sites outside generators",
               n_sites, 8)
